@@ -2,7 +2,7 @@
 # confirm a seeded change: applies in a scratch clone, suite passes with it, demo fails with it and passes without
 # usage: confirm_seed.sh <dir with patch.diff and demo_seeded.rs> [patch file name]
 D="$1"; PATCH="${2:-patch.diff}"
-R=/tmp/sens/repo
+R=${SENS_DIR:-/tmp/sens}/repo
 cd $R && git checkout -q -- . && git clean -fdq regexml
 git apply "$D/$PATCH" || { echo "CONFIRM $D: patch does not apply"; exit 1; }
 suite=$(timeout 900 cargo test --workspace --no-fail-fast --offline 2>&1 | grep -E "^test result" | awk '{p+=$4; f+=$6} END{print "passed="p" failed="f}')
